@@ -76,6 +76,10 @@ def handle_sum(v, fac, sf, F):
     argkeys = set(fac0) | set(fac1)
 
     if argkeys:  # f*arg + g*arg = (f+g)*arg
+        if not fac0 or not fac1:
+            # arg + non-arg is not linear in the argument: the non-arg summand
+            # would silently be dropped
+            raise RuntimeError("Expecting all summands to depend on the arguments.")
         argkeys = sorted(argkeys)
         keylen = len(argkeys[0])
         factors = {}
